@@ -124,6 +124,7 @@ class Interp:
         max_depth: int = 12,
         max_states: int = 4000,
         loop_limit: int = 400,
+        max_steps: int = 50_000,
     ):
         self.model = model
         self.atomic = set(atomic)
@@ -132,6 +133,8 @@ class Interp:
         self.max_depth = max_depth
         self.max_states = max_states
         self.loop_limit = loop_limit
+        self.max_steps = max_steps  # statements executed per top-level run (termination guard: exceeding it is an analysis error, never a verdict)
+        self.steps = 0
         self._const_cache: dict[str, Any] = {}
         self._const_heap: set[str] = set()
         self.stmt_hook: Optional[Callable] = None
@@ -734,6 +737,9 @@ class Interp:
             r = self.stmt_hook(self, stmt, st)
             if r is not None:
                 return r
+        self.steps += 1
+        if self.steps > self.max_steps:
+            raise AnalysisError(f"abstract interpretation exceeded {self.max_steps} statements")
         m = getattr(self, "s_" + type(stmt).__name__, None)
         if m is None:
             st.note(f"unsupported statement {type(stmt).__name__}")
@@ -1184,6 +1190,8 @@ class Interp:
     def run_function(self, qualname: str, args: list, kwargs: Optional[dict] = None, st: Optional[State] = None) -> Results:
         st = st or State()
         fi = self.model.func(qualname)
+        if not self.ctx_stack:
+            self.steps = 0
         self.ctx_stack.append((fi.module, fi.cls))
         try:
             return self.call_func(fi.qualname, args, kwargs or {}, st)
